@@ -1111,3 +1111,86 @@ Example C08_ticket_reencode_refuted :
   end.
 Proof. vm_compute. repeat split. Qed.
 Print Assumptions C08_ticket_reencode_refuted.
+
+(* ==== round 6 (add-only) ==== *)
+From V Require Import Wire.UnreachableProofs Wire.FramesRejectViaProofs.
+
+(** The model's "would be a bug / panic in Go" classes are unreachable from the parsers:
+    E_TP_BUG never (any input, perspective, form); E_Panic / E_PNLen never from parseHeader / ParsePacket (any
+    input), from ParseShortHeader with a connection ID length >= 0, from ParseConnectionID with a length in 0..20
+    and from ParseExtended on non-empty data — the argument ranges the callers guarantee.  (_partial: outside those
+    argument ranges the classes ARE reachable — that is what they model; ExtendedHeader.Append with
+    Length > 16383 and AppendShortHeader with pnLen outside 1..4 are encoder-side and not covered.) *)
+Theorem C08_model_errors_unreachable_partial :
+  (forall pers ticket b c a, unmarshal pers ticket b = Err c a -> c <> E_TP_BUG) /\
+  (forall b h e, parse_header b = Some (h, e) -> e <> E_Panic /\ e <> E_PNLen) /\
+  (forall data c h pkt rest, parse_packet data = (c, h, pkt, rest) -> c <> E_Panic /\ c <> E_PNLen) /\
+  (forall data k, 0 <= k -> fst (parse_short data k) <> E_Panic /\ fst (parse_short data k) <> E_PNLen) /\
+  (forall data k, 0 <= k <= W_MaxConnIDLen ->
+     fst (parse_connection_id data k) <> E_Panic /\ fst (parse_connection_id data k) <> E_PNLen) /\
+  (forall h data, data <> [] -> fst (parse_extended h data) <> E_Panic /\ fst (parse_extended h data) <> E_PNLen).
+Proof.
+  exact (conj unmarshal_no_bug (conj parse_header_no_panic (conj parse_packet_no_panic
+         (conj parse_short_no_panic (conj parse_connection_id_no_panic parse_extended_no_panic))))).
+Qed.
+Print Assumptions C08_model_errors_unreachable_partial.
+
+(** Rejections THROUGH ParseType and the type dispatch, for any valid width of the varints in front. *)
+Theorem C08_reject_stream_count_via_parse_next : forall c lvl t n w rest,
+  In t [FT_BidiMaxStreams; FT_UniMaxStreams; FT_BidiStreamBlocked; FT_UniStreamBlocked] ->
+  width_ok n w -> 2 ^ 60 < n -> type_allowed lvl t = true ->
+  parse_next c lvl ([t] ++ vappend_len n w ++ rest) = Err 13 0.
+Proof. exact reject_stream_count_via. Qed.
+Print Assumptions C08_reject_stream_count_via_parse_next.
+
+Theorem C08_reject_new_cid_via_parse_next : forall c lvl s ws r wr l rest,
+  width_ok s ws -> width_ok r wr -> type_allowed lvl FT_NewConnectionID = true ->
+  (s < r -> parse_next c lvl ([FT_NewConnectionID] ++ vappend_len s ws ++ vappend_len r wr ++ rest) = Err 15 0) /\
+  (r <= s -> l = 0 -> parse_next c lvl ([FT_NewConnectionID] ++ vappend_len s ws ++ vappend_len r wr ++ l :: rest) = Err 16 0) /\
+  (r <= s -> 20 < l -> parse_next c lvl ([FT_NewConnectionID] ++ vappend_len s ws ++ vappend_len r wr ++ l :: rest) = Err 17 0).
+Proof. exact reject_new_cid_via. Qed.
+Print Assumptions C08_reject_new_cid_via_parse_next.
+
+Theorem C08_reject_reliable_size_via_parse_next : forall c lvl s ws e we fs wf rs wr rest,
+  width_ok s ws -> width_ok e we -> width_ok fs wf -> width_ok rs wr -> fs < rs ->
+  type_valid c FT_ResetStreamAt = true -> type_allowed lvl FT_ResetStreamAt = true ->
+  parse_next c lvl ([FT_ResetStreamAt] ++ vappend_len s ws ++ vappend_len e we ++ vappend_len fs wf ++ vappend_len rs wr ++ rest) = Err 14 0.
+Proof. exact reject_reliable_size_via. Qed.
+Print Assumptions C08_reject_reliable_size_via_parse_next.
+
+Theorem C08_reject_stream_overflow_via_parse_next : forall c lvl sid ws off wo data wl fin rest,
+  width_ok sid ws -> width_ok off wo -> width_ok (zlen data) wl -> off <> 0 ->
+  zlen data <= W_MaxPacketBufferSize -> W_MaxByteCount < off + zlen data ->
+  type_allowed lvl (stream_type off fin true) = true ->
+  parse_next c lvl ([stream_type off fin true] ++ vappend_len sid ws ++ vappend_len off wo ++ vappend_len (zlen data) wl ++ data ++ rest)
+  = Err 12 0.
+Proof. exact reject_stream_overflow_via. Qed.
+Print Assumptions C08_reject_stream_overflow_via_parse_next.
+
+Example C08_reject_via_parse_next_nonvacuous :
+  width_ok (2 ^ 60 + 1) 8 /\ type_allowed 4 FT_UniMaxStreams = true /\
+  parse_next (Cfg false false false 3) 4 ([FT_UniMaxStreams] ++ vappend_len (2 ^ 60 + 1) 8 ++ [1]) = Err 13 0 /\
+  parse_next (Cfg false false false 3) 4 ([FT_NewConnectionID] ++ vappend_len 1 2 ++ vappend_len 0 4 ++ 21 :: [7]) = Err 17 0.
+Proof. split; [unfold width_ok, vwf; repeat split; try (vm_compute; discriminate); auto|]. repeat split; vm_compute; reflexivity. Qed.
+Print Assumptions C08_reject_via_parse_next_nonvacuous.
+
+(** C08_payload_roundtrip / _last already cover STREAM (with length), DATAGRAM (with length, or without as the LAST
+    frame) and every control frame: [item_ok] only asks for wf, Append, a known and allowed type and self-delimitation.
+    Instance for the kinds C01 relies on (parser with DATAGRAM negotiated, 1-RTT): *)
+Example C08_payload_kinds_covered :
+  let c := Cfg true false false 3 in
+  Forall (item_ok c 4) [(0%nat, FStream 4 100 [1; 2; 3] false true); (1%nat, FDatagram true [9; 9]); (0%nat, FMaxStreamData 4 5000)] /\
+  wf_frame (FDatagram false [7; 7; 7]) /\ append_frame (FDatagram false [7; 7; 7]) = Some [48; 7; 7; 7] /\
+  type_valid c (frame_type (FDatagram false [7; 7; 7])) = true /\ type_allowed 4 (frame_type (FDatagram false [7; 7; 7])) = true.
+Proof.
+  cbv zeta. assert (V : forall v, 0 <= v <= 100000 -> vwf v) by (intros v Hv; unfold vwf, maxVarInt8; lia).
+  split; [|repeat split; try reflexivity; apply V; vm_compute; split; discriminate].
+  constructor; [|constructor; [|constructor; [|constructor]]]; unfold item_ok; cbn [snd].
+  - split.
+    + split; [apply V; lia|]. split; [apply V; lia|]. split; [vm_compute; discriminate|].
+      split; [vm_compute; discriminate|]. left. reflexivity.
+    + split; [eexists; reflexivity|]. repeat split; reflexivity.
+  - split; [apply V; vm_compute; split; discriminate|]. split; [eexists; reflexivity|]. repeat split; reflexivity.
+  - split; [split; apply V; lia|]. split; [eexists; reflexivity|]. repeat split; reflexivity.
+Qed.
+Print Assumptions C08_payload_kinds_covered.
